@@ -79,7 +79,7 @@ def build_harness(race=False):
     env = dict(GOENV)
     if os.environ.get("VERIF_COVER"):
         # development aid: statement coverage of the library under the harness (GOCOVERDIR must be set by the caller)
-        cmd[2:2] = ["-cover", "-coverpkg=github.com/at-wat/mqtt-go"]
+        cmd[2:2] = ["-cover", "-coverpkg=github.com/at-wat/mqtt-go/...,./..."]
     if race:
         cmd.insert(2, "-race")
         env["CGO_ENABLED"] = "1"
